@@ -13,7 +13,8 @@ DEST=$(jq -r .demo.dest "$SRC/meta.json"); PAT=$(jq -r .demo.run_pattern "$SRC/m
 RFLAG=""; [ "$RACE" = "true" ] && RFLAG="-race"
 WT=$(mktemp -d /var/tmp/seedwt.XXXXXX); ST=$(mktemp -d /var/tmp/seedst.XXXXXX)
 trap 'git -C /repo worktree remove --force "$WT" >/dev/null 2>&1; rm -rf "$WT" "$ST"' EXIT
-rmdir "$WT"; git -C /repo worktree add --detach -q "$WT" HEAD || exit 3
+BASE=$(jq -r '.base_commit // "HEAD"' "$SRC/meta.json")
+rmdir "$WT"; git -C /repo worktree add --detach -q "$WT" "$BASE" || exit 3
 DIFF="$SRC/patch.diff"; demo="$SRC/demo_test.go.txt"
 echo "seedconfirm: $SRC demo dest=$DEST pattern=$PAT $RFLAG"
 
